@@ -82,7 +82,26 @@ pub fn main(args: &[String]) -> ! {
                 if line == "Q" || line.is_empty() {
                     break;
                 }
-                let reply = if let Some(rest) = line.strip_prefix("X ") {
+                let reply = if let Some(what) = line.strip_prefix("T ") {
+                    // machinery self-test: die in a known way inside a journaled call
+                    journal.set(J_PROBE);
+                    match what {
+                        "abort" => std::process::abort(),
+                        "overflow" => {
+                            #[allow(unconditional_recursion)]
+                            fn deep(n: u64) -> u64 {
+                                let pad = std::hint::black_box([n; 64]);
+                                deep(n + 1) + pad[(n % 64) as usize]
+                            }
+                            json!({"selftest": deep(0)})
+                        }
+                        "alloc" => {
+                            let v: Vec<u8> = std::hint::black_box(vec![1u8; 1usize << 40]);
+                            json!({"selftest": v.len()})
+                        }
+                        _ => json!({"selftest": "unknown"}),
+                    }
+                } else if let Some(rest) = line.strip_prefix("X ") {
                     let mut it = rest.split_whitespace();
                     let entry: usize = it.next().and_then(|x| x.parse().ok()).unwrap_or(usize::MAX);
                     let bytes = hex::decode(it.next().unwrap_or("")).unwrap_or_default();
